@@ -24,14 +24,24 @@ func UpdateBlacklist(timeout time.Duration) error {
 		return err
 	}
 	blacklisted := strings.Split(string(body), "\n")
+	blacklistedMu.Lock()
+	defer blacklistedMu.Unlock()
 	for _, str := range blacklisted {
 		Blacklisted[common.HexToAddress(str).Hex()] = true
 	}
 	return nil
 }
 
+func isBlacklisted(addr string) bool {
+	blacklistedMu.RLock()
+	defer blacklistedMu.RUnlock()
+	return Blacklisted[addr]
+}
+
 func StringifyBlacklist() string {
 	addrs := ""
+	blacklistedMu.RLock()
+	defer blacklistedMu.RUnlock()
 	for addr, _ := range Blacklisted {
 		addrs = addrs + addr + ","
 	}
